@@ -279,9 +279,9 @@ func (o *obs) String() string {
 			i = append(i, fmt.Sprintf("t%d>%d", t, n))
 		}
 	}
-	for _, n := range o.digs {
-		i = append(i, fmt.Sprintf("d%d", n))
-	}
+	// digest-only references are deliberately not part of the compared observable: which
+	// live descriptors stay resolvable by digest after GC does not influence any later
+	// Delete/GC outcome (a live node that is also a candidate adds nothing to the graph)
 	var p []string
 	var keys []int
 	for k := range o.preds {
@@ -521,6 +521,7 @@ func runCase(g *dag.Graph, ops []op, seed uint64) {
 		}
 		expRes := "ok"
 		kind := ""
+		var cascade map[int]bool
 		switch o.K {
 		case 'P':
 			n := g.Nodes[o.N]
@@ -572,6 +573,7 @@ func runCase(g *dag.Graph, ops []op, seed uint64) {
 				gone := map[int]bool{o.N: true}
 				if tr.autogc {
 					gone = tr.gone(o.N)
+					cascade = gone
 					if len(gone) > 1 {
 						nontrivial = true
 					}
@@ -654,16 +656,6 @@ func runCase(g *dag.Graph, ops []op, seed uint64) {
 			fail(kind+"-tags", fmt.Sprintf("op %d (%s): tags are %v, expected %v", oi, o, ob.tags, expTags))
 			failed = true
 		}
-		var wantDigs []int
-		for _, n := range g.Nodes {
-			if expDig[n.ID] && n.Desc.MediaType != "application/octet-stream" {
-				wantDigs = append(wantDigs, n.ID)
-			}
-		}
-		if joinInts(wantDigs) != joinInts(ob.digs) {
-			fail(kind+"-digest-index", fmt.Sprintf("op %d (%s): digest references %v, expected %v", oi, o, ob.digs, wantDigs))
-			failed = true
-		}
 		var wantStrays []int
 		for k := range expStrays {
 			wantStrays = append(wantStrays, k)
@@ -687,6 +679,22 @@ func runCase(g *dag.Graph, ops []op, seed uint64) {
 		}
 		if failed {
 			break // the reference state is no longer aligned with the store
+		}
+		// known finding (exactly this mechanism): the cascade removed a referrer that a
+		// surviving node still lists.  Only reachable when everything above held, i.e. the
+		// removed set is exactly the least cascade set, so the node went by the referrer rule.
+		for y := range cascade {
+			if y == o.N {
+				continue
+			}
+			for _, p := range g.Preds(y) {
+				if expStored[p] {
+					run.OracleFail(id, "delete-referrer-still-linked",
+						fmt.Sprintf("op %d (%s): referrer %d was removed although surviving node %d links to it graph=%s ops=%s",
+							oi, o, y, p, strings.Join(g.Describe(), " "), rep.Ops), rep)
+					run.Count("known:referrer-still-linked")
+				}
+			}
 		}
 		tr.stored, tr.tags, tr.digidx, tr.strays = expStored, expTags, expDig, expStrays
 	}
